@@ -1966,8 +1966,14 @@ func (ls *LState) Status(th *LState) string {
 		status = "dead"
 	} else if ls.G.CurrentThread == th {
 		status = "running"
-	} else if ls.Parent == th {
-		status = "normal"
+	} else {
+		// normal: it resumed, directly or through others, the thread that is running
+		for p := ls.G.CurrentThread; p != nil; p = p.Parent {
+			if p.Parent == th {
+				status = "normal"
+				break
+			}
+		}
 	}
 	return status
 }
@@ -1994,6 +2000,9 @@ func (ls *LState) Resume(th *LState, fn *LFunction, args ...LValue) (ResumeState
 	}
 	if th.Dead {
 		return ResumeError, newApiErrorS(ApiErrorRun, "can not resume a dead thread"), nil
+	}
+	if ls.Status(th) == "normal" {
+		return ResumeError, newApiErrorS(ApiErrorRun, "can not resume a normal thread"), nil
 	}
 	th.Parent = ls
 	ls.G.CurrentThread = th
